@@ -34,6 +34,7 @@ type SpecEnv struct {
 	curLoop  *loopInfo
 	cellSt   *State
 	mapViews map[int][2]*Term // rec-spec map parameters: placeholder id -> (domain, values) arrays
+	pureIdx  int               // which result of a multi-result pure function is meant (-1: single)
 }
 
 type specErr struct{ msg string }
@@ -905,6 +906,36 @@ func (env *SpecEnv) call(x *SExpr) (*Term, types.Type) {
 					}
 				}
 				env.fail("seen(): loop is not a map range")
+			case "called":
+				id, ok := env.e.calledCell[args[0].Name]
+				if !ok {
+					env.fail("called(%s): not tracked (only usable in ensures / invariants)", args[0].Name)
+				}
+				v := env.cells().cells[id]
+				if v == nil {
+					v = False
+				}
+				return v, types.Typ[types.Bool]
+			case "callarg":
+				as, ok := env.e.callArgs[args[0].Name]
+				var k int
+				fmt.Sscan(args[1].Name, &k)
+				if !ok || k >= len(as) {
+					env.fail("callarg(%s, %d): no such call/argument before this point", args[0].Name, k)
+				}
+				return as[k].v, as[k].t
+			case "first", "second", "third":
+				idx := map[string]int{"first": 0, "second": 1, "third": 2}[fn.Name]
+				if len(args) != 1 || args[0].Kind != "call" {
+					env.fail("%s() needs a call to a pure function", fn.Name)
+				}
+				env2 := *env
+				env2.pureIdx = idx
+				t, ty, ok := env2.pureCall(args[0].Args[0], args[0].Args[1:])
+				if !ok {
+					env.fail("%s(): not a pure function call", fn.Name)
+				}
+				return t, ty
 			case "callresult":
 				// first result of the (unique) earlier call to the named function in this unit
 				idx := "0"
@@ -1280,12 +1311,19 @@ func (env *SpecEnv) pureCall(fn *SExpr, args []*SExpr) (*Term, types.Type, bool)
 		}
 		as = append(as, v)
 	}
+	ridx := 0
 	if sig.Results().Len() != 1 {
-		env.fail("pure function %s used in a contract must have exactly one result", key)
+		ridx = env.pureIdx
+		if ridx < 0 || ridx >= sig.Results().Len() {
+			env.fail("pure function %s has %d results: select one with first()/second()", key, sig.Results().Len())
+		}
 	}
-	rt := sig.Results().At(0).Type()
+	rt := sig.Results().At(ridx).Type()
 	con.used++
 	name := "pure!" + key
+	if sig.Results().Len() > 1 {
+		name = fmt.Sprintf("pure!%s#%d", key, ridx)
+	}
 	if sig.Variadic() {
 		name = fmt.Sprintf("%s/%d", name, len(args)-(sig.Params().Len()-1))
 	}
